@@ -271,10 +271,15 @@ class Ctx:
             self._facts[key] = Facts(self.cfg(f), call_info=ci, is_class=lambda nm: nm in self.m.cname)
         return self._facts[key]
 
-    def call_info(self, f):
+    def call_info(self, f, _stack=()):
+        """call -> (assigned attrs, mutated attrs, established non-None fields,
+        (attrs written when the result is false), attrs never assigned None)"""
         import ast
 
+        from .model import access_path
+
         attrs = self.e.attr_sets()
+        nno = self.e.nonnull_only_attrs()
         r = self.r
         cache = {}
 
@@ -292,21 +297,101 @@ class Ctx:
                     mu |= tm
                 est = set()
                 if kind in ("typed", "super", "by_name") and isinstance(call.func, ast.Attribute):
-                    from .model import access_path
-
                     recv = access_path(call.func.value)
                     if recv:
                         common = None
                         for t in targets:
-                            s = self.establishes(t)
-                            common = s if common is None else (common & s)
+                            s_ = self.establishes(t, _stack)
+                            common = s_ if common is None else (common & s_)
                         for fld in common or ():
                             est.add(("nonnull", f"{recv}.{fld}"))
-                res = (a, mu, est)
+                fa, fm = set(), set()
+                for t in targets:
+                    x = self.falsy_writes(t)
+                    fa |= x[0]
+                    fm |= x[1]
+                nn = None
+                for t in targets:
+                    x = nno.get(t, set()) | (a - attrs.get(t, (set(), set()))[0])
+                    nn = x if nn is None else (nn & x)
+                res = (a, mu, est, (fa, fm), nn or set())
             cache[k] = res
             return res
 
         return info
+
+    def falsy_writes(self, qual):
+        """(assigned attrs, mutated attrs) a function can have written when it
+        returns a false value (None / False / falls off the end): result-
+        conditioned summary, a path query on the callee's CFG."""
+        import ast
+
+        if not hasattr(self, "_fw"):
+            self._fw = {}
+        if qual in self._fw:
+            return self._fw[qual]
+        attrs = self.e.attr_sets()
+        full = attrs.get(qual, (set(), set()))
+        self._fw[qual] = full  # recursion: be conservative
+        f = self.m.funcs[qual]
+        cfg = self.cfg(f)
+        # falsy exits: `return <const falsy>` nodes, bare return, fall-through
+        exits = set()
+        for p, lab in cfg.nodes[cfg.exit.id].preds:
+            n = cfg.nodes[p]
+            if lab and lab[0] == "return":
+                v = n.ast.value if isinstance(n.ast, ast.Return) else None
+                if v is None or (isinstance(v, ast.Constant) and not v.value):
+                    exits.add(p)
+                elif isinstance(v, ast.Constant) and v.value:
+                    continue
+                else:
+                    exits.add(p)  # unknown value: may be false
+            else:
+                exits.add(p)
+        # backward reachability from the falsy exits
+        back = set()
+        stack = list(exits)
+        while stack:
+            i = stack.pop()
+            if i in back:
+                continue
+            back.add(i)
+            for p, lab in cfg.nodes[i].preds:
+                if lab and lab[0] == "exc":
+                    continue
+                stack.append(p)
+        a, mu = set(), set()
+        from .cfg import MUTATORS
+
+        for i in back:
+            n = cfg.nodes[i]
+            if n.ast is None or n.kind not in ("stmt", "test", "for"):
+                continue
+            roots = [n.ast] if not isinstance(n.ast, ast.With) else [x.context_expr for x in n.ast.items]
+            if n.kind == "for":
+                continue
+            for r in roots:
+                for x in ast.walk(r):
+                    if isinstance(x, (ast.Assign, ast.AugAssign, ast.AnnAssign)):
+                        tg = x.targets if isinstance(x, ast.Assign) else [x.target]
+                        for t in tg:
+                            for y in ([t] if not isinstance(t, (ast.Tuple, ast.List)) else t.elts):
+                                if isinstance(y, ast.Attribute):
+                                    a.add(y.attr)
+                                elif isinstance(y, ast.Subscript) and isinstance(y.value, ast.Attribute):
+                                    mu.add(y.value.attr)
+                    elif isinstance(x, ast.Call):
+                        if isinstance(x.func, ast.Attribute) and x.func.attr in MUTATORS and isinstance(x.func.value, ast.Attribute):
+                            mu.add(x.func.value.attr)
+                        k, tg = self.r.resolve_call(f, x)
+                        if k not in ("external", "unknown"):
+                            for t in tg:
+                                ta, tm = attrs.get(t, (set(), set()))
+                                a |= ta
+                                mu |= tm
+        self._fw[qual] = (a, mu)
+        return self._fw[qual]
 
     def establishes(self, qual, _stack=()):
         """Fields F such that `self.F` is non-None at every normal exit of the
@@ -317,46 +402,21 @@ class Ctx:
             return self._est[qual]
         if qual in _stack:
             return set()
-        self._est[qual] = set()
         f = self.m.funcs[qual]
         out = set()
         if f.cls and f.params:
             selfn = f.params[0]
             from .cfg import Facts
-            import ast
-            from .model import access_path
-
-            attrs = self.e.attr_sets()
-
-            def info(call):
-                kind, targets = self.r.resolve_call(f, call)
-                if kind in ("external", "unknown") or not targets:
-                    return None
-                a, mu = set(), set()
-                for t in targets:
-                    ta, tm = attrs.get(t, (set(), set()))
-                    a |= ta
-                    mu |= tm
-                est = set()
-                if isinstance(call.func, ast.Attribute):
-                    recv = access_path(call.func.value)
-                    if recv:
-                        common = None
-                        for t in targets:
-                            s = self.establishes(t, _stack + (qual,))
-                            common = s if common is None else (common & s)
-                        for fld in common or ():
-                            est.add(("nonnull", f"{recv}.{fld}"))
-                return (a, mu, est)
 
             cfg = self.cfg(f)
-            F = Facts(cfg, call_info=info, is_class=lambda nm: nm in self.m.cname)
+            F = Facts(cfg, call_info=self.call_info(f, _stack + (qual,)), is_class=lambda nm: nm in self.m.cname)
             ex = F.IN.get(cfg.exit.id)
             if ex is not None:
                 for fact in ex:
                     if fact[0] == "nonnull" and fact[1].startswith(selfn + ".") and fact[1].count(".") == 1:
                         out.add(fact[1].split(".", 1)[1])
-        self._est[qual] = out
+        if not _stack:
+            self._est[qual] = out
         return out
 
 
